@@ -469,6 +469,27 @@ func nilSkipped(c *core.Ctx) {
 		c.Undecided("append-elem", call.Pos(), "appended element not identified")
 		return
 	}
+	// every element is visited: the constructor's loop has no early exit
+	for _, l := range loopsIn(ctor.Body) {
+		if !astx.Contains(l, appendStmt) {
+			continue
+		}
+		var exits []string
+		ast.Inspect(l, func(x ast.Node) bool {
+			switch y := x.(type) {
+			case *ast.FuncLit:
+				return false
+			case *ast.BranchStmt:
+				if y.Tok == token.BREAK || y.Tok == token.GOTO {
+					exits = append(exits, y.Tok.String()+" at "+p.Pos(y.Pos()))
+				}
+			case *ast.ReturnStmt:
+				exits = append(exits, "return at "+p.Pos(y.Pos()))
+			}
+			return true
+		})
+		c.Check(len(exits) == 0, "no-early-exit", l.Pos(), "the loop that builds the chain visits every entry (a nil entry is skipped, not a reason to stop)%s", joinProblems(exits))
+	}
 	elemKey := astx.CanonKey(info, elem)
 	dnf, trunc := astx.PathConditions(info, ctor.Body, appendStmt)
 	if trunc || len(dnf) == 0 {
